@@ -412,7 +412,8 @@ def req_key(r):
 ASSUME = ['the real squid binary (ASan build of the current tree) runs under the lock-step/virtual-time shim; clients (bound to '
           '127.0.0.1 / 127.0.0.2) and the six origin listeners (127.0.0.3-5 x 2 ports) are played by the driver',
           'configurations after the first of an instance are loaded with SIGHUP (squid -k reconfigure path: the real parser builds '
-          'the access list again); per shard some configurations are also started on a fresh instance and must give the same transcript',
+          'the access list again); per shard some configurations are run both on an instance started directly with them and after a '
+          'reconfiguration (thorough: two separate instances) and must give the same transcript',
           'the 36 requests of a configuration are in flight together; every reported violation is reproduced alone on a fresh instance',
           'host names resolve through hosts_file; unresolvable destinations, IPv6, deny_info, authentication and external ACLs are outside the bound']
 RULE = ('a configuration is non-trivial when, by observation, at least one request of the universe was forwarded and at least one was '
@@ -461,7 +462,9 @@ def make_worker(ctx, det_n):
         # determinism / start-vs-reconfigure obligation: det_n configurations spread over this shard's list are first run on
         # instances started directly with them
         det = {}
-        idxs = sorted(set((len(items) * (2 * k + 1)) // (2 * det_n) for k in range(det_n))) if items else []
+        idxs = sorted(set((len(items) * (2 * k + 1)) // (2 * det_n) for k in range(det_n))) if (items and det_n) else []
+        first_tr = None           # det_n == 0 (quick): the configuration the instance was started with is loaded once more by
+        #                           reconfiguration after the sweep and must give the same transcript (saves one start per shard)
         for i in idxs:
             for attempt in range(2):
                 w0 = CWorld(ctx, shard, name='d%d' % shard)
@@ -510,6 +513,8 @@ def make_worker(ctx, det_n):
                 res['configs'] += 1
                 res['evaluations'] += len(UNIVERSE)
                 res['classes'][cls] = res['classes'].get(cls, 0) + 1
+                if n == 0 and w.starts == 1 and w.reconfigs == 0:
+                    first_tr = tr
                 if n in det:
                     if det[n] != tr:
                         raise HarnessError('nondeterminism: configuration [%s] gave different transcripts when started directly and '
@@ -558,6 +563,14 @@ def make_worker(ctx, det_n):
                     res['deadline_hit'] = True
                     res['stopped_after_violations'] = True
                     break
+            if not det_n and first_tr is not None and len(items) > 1 and not res['deadline_hit'] and not res['violations'] \
+                    and w.sq is not None and w.starts == 1 and time.time() < t_end:
+                w.reconfigure(items[0][1])
+                tr2 = eval_config(w, items[0][1])[0]
+                if tr2 != first_tr:
+                    raise HarnessError('nondeterminism: configuration [%s] gave different transcripts when started directly and '
+                                       'when loaded by reconfiguration:\n%r\n%r' % (rules_key(items[0][1]), first_tr, tr2))
+                res['det_checked'] += 1
         finally:
             if w.sq is not None:
                 res['kicks'] += w.sq.kicks
@@ -578,7 +591,7 @@ def run(ctx):
     assert ref_allowed([('allow', ['domA', '!p1']), ('deny', ['s1'])], g) is True
     assert ref_allowed([('deny', ['domAx']), ('deny', ['dB'])], g) is False
     space = config_space(ctx.tier)
-    det_n = 1 if ctx.quick else 3
+    det_n = 0 if ctx.quick else 3
     parts = ls.run_sharded(ctx, make_worker(ctx, det_n), space)
     parts = [p for p in parts if p]
     tot = lambda k: sum(p[k] for p in parts)
@@ -607,7 +620,7 @@ def run(ctx):
         missing = sorted(set(k for k in want if not dims.get(k)))
         if missing and not deadline_hit:
             raise HarnessError('vacuity guard: never observed %r' % missing)
-        if tot('det_checked') < len(parts):
+        if tot('det_checked') < len(parts) and not deadline_hit and not tot('watchdog_retries'):
             raise HarnessError('determinism obligation not exercised in every shard')
     samples = []
     for p in parts:
